@@ -357,7 +357,11 @@ class IrProtocolBase(object):
         if cls._lead_out and packet[-1] > 0:
             packet = flatten_and_compress(packet[:-1])
             tt = sum(abs(item) for item in packet)
-            packet += [tt - cls._lead_out[-1]]
+            gap = tt - cls._lead_out[-1]
+            if packet and packet[-1] < 0 > gap:
+                packet[-1] += gap
+            else:
+                packet += [gap]
         else:
             packet = flatten_and_compress(packet)
 
